@@ -7,6 +7,7 @@ import Aqv.Lemmas.TrieBuild
 import Aqv.Lemmas.TrieProof
 import Aqv.Lemmas.TrieLoad
 import Aqv.Lemmas.TrieGc
+import Aqv.Lemmas.TrieLoadFast
 namespace Aqv.Props.C10
 open Aqv Aqv.Trie Aqv.Rlp
 
@@ -425,6 +426,18 @@ theorem single_count_first_reference_only_loses_node :
         = some s ∧ s.pins 1 = 1 ∧ 1 ∈ s.nodes ∧ 2 ∈ s.nodes) :=
   ⟨⟨_, rfl, by decide, by decide, by decide⟩, ⟨_, rfl, by decide, by decide, by decide⟩⟩
 
+/-! ### the executable shortcuts of the model driver refine the specification-level functions -/
+
+/-- The driver's one-pass commit over a hash-map database IS `commitDb` (and its pass lists exactly `storeList` and
+    computes `refX`): replaying `Commit` with it is replaying it in the model. No hypotheses. -/
+theorem commit_fast_refines (H : Bytes → Bytes) (m : DbMap) (x : PNode) :
+    dbFun (commitMap H m x) = commitDb H (dbFun m) x ∧ (storePass H x).2 = storeList H x ∧ (storePass H x).1 = refX H x :=
+  ⟨commitMap_spec H m x, (storePass_spec H x).2, (storePass_spec H x).1⟩
+
+/-- The driver's materialising loader IS `loadP` (so `commit_reopen` speaks about what the driver iterates / proves on). -/
+theorem load_fast_refines (db : Bytes → Option Bytes) (f : Nat) (x : PNode) : loadFast db f x = loadP db f x :=
+  loadFast_spec db f x
+
 /-! ### key encodings -/
 
 theorem keybytes_hex_roundtrip (s : Bytes) : hexToKeybytes (keybytesToHex s) = some s := keybytes_hex_roundtrip' s
@@ -573,6 +586,10 @@ example : Gc.LegalRun exK 10 exGc Gc.Store.empty := by
     fun _ _ => trivial⟩
 example : ∃ s, Gc.gcRun 10 exGc Gc.Store.empty = some s ∧ s.pins 1 = 1 ∧ s.parents 1 = 1 ∧ s.parents 2 = 1 :=
   ⟨_, rfl, by decide, by decide, by decide⟩
+-- the fast commit on a concrete node: one entry (the forced root), found again through `dbFun`
+example : (dbFun (commitMap toyH {} xleaf)) (hashRootX toyH xleaf) = some (enc (bodyX toyH xleaf)) := by
+  have h0 : dbFun ({} : DbMap) = fun _ => none := by funext h; simp [dbFun]
+  rw [(commit_fast_refines toyH {} xleaf).1, h0]; decide
 -- hostile node blobs: decode error, and the modelled Go panic (empty compact key)
 private def outcome : Except DErr PNode → Nat
   | .ok _ => 0
